@@ -126,6 +126,29 @@ Theorem C34_lin_cert_sound : forall h p,
 Proof. exact pq_cert_sound. Qed.
 Print Assumptions C34_lin_cert_sound.
 
+(* ---- histories with pending calls.  In EVERY reachable configuration (calls may be waiting for
+   the mutex, running, or finished but not yet returned) the completed calls together with the
+   calls that have released the mutex — completed with the result they computed, returning "now" —
+   form a linearizable history; the calls still waiting or running are omitted.  This is
+   linearizability of an incomplete history (some completion of the pending calls is linearizable). *)
+Theorem C34_linearizable_pending :
+  forall (P : nat -> list op) (c : cfg pq loc op res),
+    reach pq loc op res q_init q_fin q_mstep pq_mode (init_cfg pq loc op res m_new P) c ->
+    exists (ts : list nat) (compl : list (@orec op res)) l q,
+      NoDup ts /\
+      Forall2 (fun t e => th pq loc op res c t = Finished loc op res (o_call e) (o_op e) (o_res e) /\
+                          o_ret e = clk pq loc op res c) ts compl /\
+      linearization q_spec_sim [] (done pq loc op res c ++ compl) l q.
+Proof. exact (pq_linearizable_pending pq_mode C34_modes_exclusive). Qed.
+Print Assumptions C34_linearizable_pending.
+
+(* the certificate check for recorded histories cut at an instant: [h] the calls that had returned,
+   [pend] the calls in flight *)
+Theorem C34_lin_pcert_sound : forall h pend inf chosen p,
+  pq_pcert h pend inf chosen p = true -> linearizable_pending qspec op res q_step [] h pend.
+Proof. exact pq_pcert_sound. Qed.
+Print Assumptions C34_lin_pcert_sound.
+
 (* ---- the pinned source before the fix: Exists took no lock.  A reachable configuration has
    one thread about to write the txs map (inside Push, holding the mutex) while another is
    about to read it (inside Exists): the data race `go test -race` reports. *)
